@@ -6,7 +6,7 @@ use std::sync::Arc;
 use serde_json::{Value, json};
 
 use crate::adv::{MsgMut, send_fault, structural};
-use crate::exec::{ExecCfg, Fault, MsgRec, Outcome, RunResult, mix, run_default};
+use crate::exec::{Dir, ExecCfg, Fault, MsgRec, Outcome, RunResult, mix, run_default};
 use crate::mpcrun::{MpcCase, check_honest, mpc_body};
 use crate::schema::{NodeMut, Val, decode_msg, encode_vec, msg_type, validate_transcript};
 
@@ -228,6 +228,9 @@ fn pick(n: usize, cap: usize) -> Vec<usize> {
 
 #[derive(Clone, Debug)]
 pub struct FResult {
+    /// an honest recipient of an altered message that, after receiving it, went on to send a message
+    /// of a later protocol phase: (party, altered label, later label)
+    pub proceeded: Option<(usize, String, String)>,
     /// per party: (kind, error text or output bits)
     pub outcomes: Vec<(String, String)>,
     /// everything the honest parties sent and returned equals the honest run
@@ -270,8 +273,36 @@ pub fn run_faults(cfg: &Config, faults: Vec<Fault>, taps: Vec<crate::hooks::TapS
     let honest_sent = |rr: &RunResult<Vec<bool>>| -> Vec<(usize, usize, Arc<Vec<u8>>)> { rr.msgs.iter().filter(|m| m.from != cfg.corrupted && !m.label.starts_with("broadcast ")).map(|m| (m.from, m.to, m.bytes.clone())).collect() };
     let identical = honest_sent(&r) == honest_sent(&cfg.honest)
         && (0..n).filter(|p| *p != cfg.corrupted).all(|p| r.outcomes[p] == cfg.honest.outcomes[p]);
-    let fr = FResult { outcomes, identical, faults_hit: r.faults_hit.iter().any(|h| *h) || r.faults_hit.is_empty(), deadlock: r.deadlock };
+    // "the computation never proceeds on unverified correlated randomness": once an honest party has
+    // received an altered message of phase k, it must not send anything of a phase > k
+    let mut proceeded = None;
+    for f in ec.faults.iter().filter(|f| f.dir == Dir::Send && f.party == cfg.corrupted) {
+        let Some(k) = phase_of(&f.label) else { continue };
+        let Some(mi) = r.msgs.iter().position(|m| m.from == f.party && m.to == f.peer && m.label == f.label && m.ord == f.ord) else { continue };
+        let Some(t) = r.ops.iter().find(|o| o.party == f.peer && o.dir == Dir::Recv && o.msg == Some(mi)).and_then(|o| o.complete_t) else { continue };
+        if let Some(o) = r.ops.iter().find(|o| o.party == f.peer && o.dir == Dir::Send && o.issue_t > t && phase_of(&o.label).is_some_and(|k2| k2 > k)) {
+            proceeded = Some((f.peer, f.label.clone(), o.label.clone()));
+            break;
+        }
+    }
+    let fr = FResult { proceeded, outcomes, identical, faults_hit: r.faults_hit.iter().any(|h| *h) || r.faults_hit.is_empty(), deadlock: r.deadlock };
     (fr, r)
+}
+
+/// Protocol phase of a message label (preprocessing only): a check belonging to phase k must have
+/// passed before anything of a later phase is sent.
+pub fn phase_of(label: &str) -> Option<u8> {
+    let l = label.strip_prefix("broadcast ").unwrap_or(label);
+    Some(match l {
+        "RNG comm" | "RNG ver" => 0,
+        "CO_OT_s" | "CO_OT_r" | "CO_OT_c0c1" | "ALSZ_OT_setup" | "KOS_OT_x_t0_t1" | "KOS_OT_corr" | "fabitn" => 1,
+        "fashare comm" | "fashare ver" | "fashare di_bi" => 2,
+        "haand" | "flaand" | "flaand comm" | "flaand hash" => 3,
+        "dvalue" => 4,
+        "faand" => 5,
+        "preprocessed gates" | "wire shares" | "masked inputs" | "labels" | "output wire shares" | "lambda" => 6,
+        _ => return None,
+    })
 }
 
 pub fn recipients(cfg: &Config, c: &FCase) -> Vec<usize> {
@@ -293,7 +324,7 @@ pub fn tape_seed(seed: u64, k: u64) -> u64 {
 
 pub fn class_of(c: &FCase) -> String {
     let p1 = c.muts[0].path.as_ref().and_then(|p| p.get(1).copied());
-    let extra = if c.field.ends_with("[chain]") { ":chain" } else if c.field.ends_with("[pair]") { ":pair" } else if c.field.ends_with(":bit") { ":bit" } else if c.field.ends_with(":mac") { ":mac" } else if c.field.ends_with("[paired]") { ":paired" } else { "" };
+    let extra = if c.field.ends_with("[choice_bit]") { ":choice_bit" } else if c.field.ends_with("[chain]") { ":chain" } else if c.field.ends_with("[pair]") { ":pair" } else if c.field.ends_with(":bit") { ":bit" } else if c.field.ends_with(":mac") { ":mac" } else if c.field.ends_with("[paired]") { ":paired" } else { "" };
     let kind = c.muts[0].node.as_ref().map(|n| if n.changes_count() { n.name() } else { String::new() }).unwrap_or_default();
     format!("{}[{}]{}{}{}", c.label, p1.map(|x| x.to_string()).unwrap_or_default(), extra, if kind.is_empty() { "" } else { ":" }, kind)
 }
@@ -345,6 +376,9 @@ pub fn judge_detection(rep: &mut crate::util::Report, cfgs: &[Config], cases: &[
             continue;
         };
         j.evaluations += 1;
+        if std::env::var("PVX_DEBUG_LABEL").is_ok_and(|l| l == c.label) {
+            eprintln!("DEBUG {} rule={:?} -> {:?} proceeded={:?}", c.desc, c.rule, r.outcomes, r.proceeded);
+        }
         if !r.faults_hit {
             rep.machinery(format!("fault never applied: {}", c.desc));
             continue;
@@ -393,6 +427,15 @@ pub fn judge_detection(rep: &mut crate::util::Report, cfgs: &[Config], cases: &[
                 _ => {}
             }
         }
+        if bad.is_none()
+            && c.rule == Rule::Always
+            && prop == "C04"
+            && direct_detection_expected(&c.label)
+            && let Some((p, l1, l2)) = &r.proceeded
+        {
+            bad = Some(format!("proceeded_on_unverified:{}", class_of(c)));
+            rep.extra.insert("last_proceeded".into(), json!(format!("party {p} received the altered {l1:?} and later sent {l2:?}")));
+        }
         match bad {
             Some(class) => {
                 let outs: Vec<String> = r.outcomes.iter().enumerate().map(|(p, o)| format!("p{p}:{}({})", o.0, o.1.chars().take(50).collect::<String>())).collect();
@@ -409,6 +452,64 @@ pub fn judge_detection(rep: &mut crate::util::Report, cfgs: &[Config], cases: &[
     }
     let _ = prop;
     j
+}
+
+/// A party that uses a different choice bit x_i towards one peer than towards the others (or than it
+/// uses itself): bit i is flipped in every column of the OT-extension matrix it sends to that peer.
+/// The per-column consistency check of KOS cannot see this (all columns agree); it is the aBit test
+/// that must reject it, whatever the index.  Indices: both ends of the first bytes, both sides of the
+/// 64-bit word boundaries the test unpacks its coefficients from, the middle and the last full byte
+/// (bit 0 and bit 7 of each byte, so that either bit order inside a byte is covered).
+pub fn gen_choice_bit_cases(cfgs: &[Config]) -> Result<Vec<FCase>, String> {
+    let mut out = vec![];
+    for (ci, cfg) in cfgs.iter().enumerate() {
+        for (mi, m) in cfg.honest.msgs.iter().enumerate().filter(|(_, m)| m.from == cfg.corrupted && m.label == "ALSZ_OT_setup") {
+            // number of OTs of this session = length of the correction vector coming back
+            let Some(corr) = cfg.honest.msgs.iter().find(|c| c.from == m.to && c.to == m.from && c.label == "KOS_OT_corr" && c.ord == m.ord) else { continue };
+            let Val::Vec(cv) = decode_msg(&corr.label, &corr.bytes)? else { continue };
+            let l = cv.len();
+            let Val::Vec(cols) = decode_msg(&m.label, &m.bytes)? else { continue };
+            let mut bytes_idx: Vec<usize> = vec![0, 7, 8, l / 16, (l / 8).saturating_sub(1)];
+            if l >= 64 {
+                bytes_idx.push(((l - 64) / 64) * 8 + 7);
+            }
+            bytes_idx.retain(|b| 8 * b + 7 < l);
+            bytes_idx.sort();
+            bytes_idx.dedup();
+            for b in bytes_idx {
+                for bit in [0u8, 7] {
+                    let mut v2 = cols.clone();
+                    let mut ok = true;
+                    for col in v2.iter_mut() {
+                        match col {
+                            Val::Vec(bs) if b < bs.len() => {
+                                if let Val::U8(x) = &mut bs[b] {
+                                    *x ^= 1 << bit;
+                                } else {
+                                    ok = false;
+                                }
+                            }
+                            _ => ok = false,
+                        }
+                    }
+                    if !ok {
+                        continue;
+                    }
+                    out.push(FCase {
+                        cfg: ci,
+                        msgs: vec![mi],
+                        muts: vec![MsgMut { class: "struct:choice_bit".into(), detail: format!("bit {bit} of byte {b} flipped in all {} columns (choice bit {} or {} of {l})", cols.len(), 8 * b + bit as usize, 8 * b + 7 - bit as usize), bytes: Arc::new(encode_vec(&Val::Vec(v2))), malformed: false, path: Some(vec![b]), node: None, dynamic: None }],
+                        label: m.label.clone(),
+                        field: "ALSZ_OT_setup[choice_bit]".into(),
+                        rule: Rule::Always,
+                        to_all: false,
+                        desc: format!("{}: \"ALSZ_OT_setup\" #{} {}->{}: choice bit at byte {b} bit {bit} flipped towards this peer only", cfg.name, m.ord, m.from, m.to),
+                    });
+                }
+            }
+        }
+    }
+    Ok(out)
 }
 
 /// Pairs of bit flips inside one message (two lies that could cancel in an accumulated check).
